@@ -2,6 +2,7 @@ import GlyModel.Generated.Tables
 import GlyModel.Smiles.Tokenize
 import GlyProofs.Smiles.Relabel
 import GlyProofs.Smiles.TreeTheorem
+import GlyProofs.Smiles.Sanitize
 /-
   C02 — Every non-empty result is a valid, whole, placeholder-free molecule. (Property theorems only.)
 -/
@@ -69,5 +70,32 @@ theorem C02_no_marker_survives (isMk : Atom → Bool) (hN : isMk ['N'] = false) 
   cases hmk : isMk a with
   | false => rfl
   | true => exact absurd ((mem_atomsOf a _).mp this) (hfree a hmk)
+
+open Gly.Smi in
+/-- **`sanitize_smiles` keeps the molecule** – its `))` rule: a branch that ends a branch is written without its own parentheses.
+    For every prefix, suffix and inner branch `T` that is balanced on its own, `pre ( T )) post` and `pre T ) post` denote the same
+    molecule (same atoms, same bond events in the same order) or are both not SMILES. Any length, any nesting. -/
+theorem C02_sanitize_rr_sound (pre post T : List Tok) (s s1 : St) (a : Nat) (hpre : run St.init pre = some s)
+    (hp : s.prev = some a) (hpe : s.pend = none)
+    (hT : run { s with stack := [] } T = some s1) (hs : s1.stack = []) (hq : s1.pend = none) :
+    sem (pre ++ (Tok.lpar :: (T ++ [Tok.rpar, Tok.rpar])) ++ post) = sem (pre ++ (T ++ [Tok.rpar]) ++ post) :=
+  sanitize_rr_sound pre post T s s1 a hpre hp hpe hT hs hq
+
+open Gly.Smi in
+/-- Its other rule (`((`: a branch that starts a branch loses its parentheses) is **not** semantics-preserving: `C((C)O)N` would
+    become the chain `C(CO)N`. RDKit does not parse such a string, the assembly never writes one (every block that replaces a
+    marker starts with an atom), and every run counts how often `sanitize_smiles` was handed one (must be 0). -/
+theorem C02_sanitize_ll_counterexample :
+    let c := Tok.atom ['C']; let o := Tok.atom ['O']; let n := Tok.atom ['N']
+    sem [c, .lpar, .lpar, c, .rpar, o, .rpar, n] ≠ sem [c, .lpar, c, o, .rpar, n] :=
+  sanitize_ll_counterexample
+
+open Gly.Smi in
+/-- Non-vacuity of `C02_sanitize_rr_sound`: the N-link splice `C(N(CO))O` ↦ `C(NCO)O`. -/
+example :
+    let c := Tok.atom ['C']; let o := Tok.atom ['O']; let n := Tok.atom ['N']
+    sem [c, .lpar, n, .lpar, c, o, .rpar, .rpar, o] = sem [c, .lpar, n, c, o, .rpar, o] ∧
+    (sem [c, .lpar, n, c, o, .rpar, o]).isSome = true := by
+  decide
 
 end Gly.Props.C02
